@@ -11,6 +11,7 @@ namespace xv
     enum
     {
         KF_ROTR_SIGNED = 0,
+        KF_LDEXP_RANGE,
         KF_COUNT
     };
 
@@ -18,6 +19,7 @@ namespace xv
     {
         static const std::vector<FindingDef> f = {
             { "rotr-signed", "rotr on signed lanes is built from digits = bits-1 and an arithmetic right shift: result == (x >> n) | (x << (bits-1-n))" },
+            { "ldexp-exponent-range", "generic ldexp(x, e) multiplies by the bit pattern (e + bias) << mantissa_bits, which is not 2^e for e outside the normal exponent range" },
         };
         return f;
     }
@@ -55,6 +57,43 @@ namespace xv
                 uint64_t mask = size == 8 ? ~0ull : ((1ull << W) - 1);
                 if ((buggy & mask) == (v.observed & mask))
                     return KF_ROTR_SIGNED;
+            }
+        }
+        if (op == "ldexp" && (v.elem == XV_F32 || v.elem == XV_F64) && v.arch->compare(0, 6, "avx512") != 0)
+        {
+            // generic kernel: self * bitwise_cast<T>((e + maxexponent) << nmb), wrong exactly when 2^e is not a normal number
+            if (v.elem == XV_F32)
+            {
+                int32_t e = (int32_t)v.in[1];
+                if (e < -126 || e > 127)
+                {
+                    uint32_t ik = (uint32_t)(e + 127) << 23;
+                    float x, p, obs;
+                    uint32_t xb = (uint32_t)v.in[0], ob = (uint32_t)v.observed;
+                    memcpy(&x, &xb, 4);
+                    memcpy(&p, &ik, 4);
+                    memcpy(&obs, &ob, 4);
+                    volatile float r = x * p;
+                    float rr = r;
+                    if (memcmp(&rr, &obs, 4) == 0 || (rr != rr && obs != obs))
+                        return KF_LDEXP_RANGE;
+                }
+            }
+            else
+            {
+                int64_t e = (int64_t)v.in[1];
+                if (e < -1022 || e > 1023)
+                {
+                    uint64_t ik = (uint64_t)(e + 1023) << 52;
+                    double x, p, obs;
+                    memcpy(&x, &v.in[0], 8);
+                    memcpy(&p, &ik, 8);
+                    memcpy(&obs, &v.observed, 8);
+                    volatile double r = x * p;
+                    double rr = r;
+                    if (memcmp(&rr, &obs, 8) == 0 || (rr != rr && obs != obs))
+                        return KF_LDEXP_RANGE;
+                }
             }
         }
         return -1;
